@@ -123,6 +123,7 @@ type c14Inst struct {
 	id     ghash.Hash
 	hasID  bool
 	sum    func([]byte) ([]byte, error) // package-level mimc.Sum
+	consts func() []big.Int             // package-level mimc.GetConstants
 	bs     int                          // block size per the specification (input construction only)
 }
 
@@ -131,6 +132,7 @@ type c14P2Pkg struct {
 	tag     string // name inside the documented seed string
 	d       int    // documented s-box degree (seed string only)
 	newPerm reflect.Value
+	newSeed reflect.Value // NewPermutationWithSeed(t, rf, rp, seed)
 	newMD   func() ghash.StateStorer
 	id      ghash.Hash
 	params  [][3]int // parameter sets driven; the first one is the default of the hash wrapper
@@ -143,14 +145,14 @@ type c14SisPkg struct {
 
 func c14MimcInsts() []*c14Inst {
 	return []*c14Inst{
-		{name: "MIMC_BN254", field: "bn254/fr", ctor: func() ghash.StateStorer { return mimc_bn254.NewMiMC() }, id: ghash.MIMC_BN254, hasID: true, sum: mimc_bn254.Sum},
-		{name: "MIMC_BLS12_381", field: "bls12-381/fr", ctor: func() ghash.StateStorer { return mimc_bls12381.NewMiMC() }, id: ghash.MIMC_BLS12_381, hasID: true, sum: mimc_bls12381.Sum},
-		{name: "MIMC_BLS12_377", field: "bls12-377/fr", ctor: func() ghash.StateStorer { return mimc_bls12377.NewMiMC() }, id: ghash.MIMC_BLS12_377, hasID: true, sum: mimc_bls12377.Sum},
-		{name: "MIMC_BW6_761", field: "bw6-761/fr", ctor: func() ghash.StateStorer { return mimc_bw6761.NewMiMC() }, id: ghash.MIMC_BW6_761, hasID: true, sum: mimc_bw6761.Sum},
-		{name: "MIMC_BLS24_315", field: "bls24-315/fr", ctor: func() ghash.StateStorer { return mimc_bls24315.NewMiMC() }, id: ghash.MIMC_BLS24_315, hasID: true, sum: mimc_bls24315.Sum},
-		{name: "MIMC_BLS24_317", field: "bls24-317/fr", ctor: func() ghash.StateStorer { return mimc_bls24317.NewMiMC() }, id: ghash.MIMC_BLS24_317, hasID: true, sum: mimc_bls24317.Sum},
-		{name: "MIMC_BW6_633", field: "bw6-633/fr", ctor: func() ghash.StateStorer { return mimc_bw6633.NewMiMC() }, id: ghash.MIMC_BW6_633, hasID: true, sum: mimc_bw6633.Sum},
-		{name: "MIMC_GRUMPKIN", field: "grumpkin/fr", ctor: func() ghash.StateStorer { return mimc_grumpkin.NewMiMC() }, id: ghash.MIMC_GRUMPKIN, hasID: true, sum: mimc_grumpkin.Sum},
+		{name: "MIMC_BN254", field: "bn254/fr", ctor: func() ghash.StateStorer { return mimc_bn254.NewMiMC() }, id: ghash.MIMC_BN254, hasID: true, sum: mimc_bn254.Sum, consts: mimc_bn254.GetConstants},
+		{name: "MIMC_BLS12_381", field: "bls12-381/fr", ctor: func() ghash.StateStorer { return mimc_bls12381.NewMiMC() }, id: ghash.MIMC_BLS12_381, hasID: true, sum: mimc_bls12381.Sum, consts: mimc_bls12381.GetConstants},
+		{name: "MIMC_BLS12_377", field: "bls12-377/fr", ctor: func() ghash.StateStorer { return mimc_bls12377.NewMiMC() }, id: ghash.MIMC_BLS12_377, hasID: true, sum: mimc_bls12377.Sum, consts: mimc_bls12377.GetConstants},
+		{name: "MIMC_BW6_761", field: "bw6-761/fr", ctor: func() ghash.StateStorer { return mimc_bw6761.NewMiMC() }, id: ghash.MIMC_BW6_761, hasID: true, sum: mimc_bw6761.Sum, consts: mimc_bw6761.GetConstants},
+		{name: "MIMC_BLS24_315", field: "bls24-315/fr", ctor: func() ghash.StateStorer { return mimc_bls24315.NewMiMC() }, id: ghash.MIMC_BLS24_315, hasID: true, sum: mimc_bls24315.Sum, consts: mimc_bls24315.GetConstants},
+		{name: "MIMC_BLS24_317", field: "bls24-317/fr", ctor: func() ghash.StateStorer { return mimc_bls24317.NewMiMC() }, id: ghash.MIMC_BLS24_317, hasID: true, sum: mimc_bls24317.Sum, consts: mimc_bls24317.GetConstants},
+		{name: "MIMC_BW6_633", field: "bw6-633/fr", ctor: func() ghash.StateStorer { return mimc_bw6633.NewMiMC() }, id: ghash.MIMC_BW6_633, hasID: true, sum: mimc_bw6633.Sum, consts: mimc_bw6633.GetConstants},
+		{name: "MIMC_GRUMPKIN", field: "grumpkin/fr", ctor: func() ghash.StateStorer { return mimc_grumpkin.NewMiMC() }, id: ghash.MIMC_GRUMPKIN, hasID: true, sum: mimc_grumpkin.Sum, consts: mimc_grumpkin.GetConstants},
 		// little-endian block decoding (option WithByteOrder)
 		{name: "MIMC_BN254_LE", field: "bn254/fr", le: true, ctor: func() ghash.StateStorer { return mimc_bn254.NewMiMC(mimc_bn254.WithByteOrder(fr_bn254.LittleEndian)) }},
 		{name: "MIMC_BW6_761_LE", field: "bw6-761/fr", le: true, ctor: func() ghash.StateStorer {
@@ -162,22 +164,22 @@ func c14MimcInsts() []*c14Inst {
 func c14P2Pkgs() []*c14P2Pkg {
 	curve := func(rp int) [][3]int { return [][3]int{{2, 6, rp}, {3, 8, 56}, {2, 2, 1}, {3, 4, 3}} }
 	return []*c14P2Pkg{
-		{field: "bn254/fr", tag: "BN254", d: 5, newPerm: reflect.ValueOf(p2_bn254.NewPermutation), newMD: p2_bn254.NewMerkleDamgardHasher, id: ghash.POSEIDON2_BN254, params: curve(50)},
-		{field: "bls12-377/fr", tag: "BLS12_377", d: 17, newPerm: reflect.ValueOf(p2_bls12377.NewPermutation), newMD: p2_bls12377.NewMerkleDamgardHasher, id: ghash.POSEIDON2_BLS12_377, params: curve(26)},
-		{field: "bls12-381/fr", tag: "BLS12_381", d: 5, newPerm: reflect.ValueOf(p2_bls12381.NewPermutation), newMD: p2_bls12381.NewMerkleDamgardHasher, id: ghash.POSEIDON2_BLS12_381, params: curve(50)},
-		{field: "bls24-315/fr", tag: "BLS24_315", d: 5, newPerm: reflect.ValueOf(p2_bls24315.NewPermutation), newMD: p2_bls24315.NewMerkleDamgardHasher, id: ghash.POSEIDON2_BLS24_315, params: curve(50)},
-		{field: "bls24-317/fr", tag: "BLS24_317", d: 7, newPerm: reflect.ValueOf(p2_bls24317.NewPermutation), newMD: p2_bls24317.NewMerkleDamgardHasher, id: ghash.POSEIDON2_BLS24_317, params: curve(40)},
-		{field: "bw6-633/fr", tag: "BW6_633", d: 5, newPerm: reflect.ValueOf(p2_bw6633.NewPermutation), newMD: p2_bw6633.NewMerkleDamgardHasher, id: ghash.POSEIDON2_BW6_633, params: curve(50)},
-		{field: "bw6-761/fr", tag: "BW6_761", d: 5, newPerm: reflect.ValueOf(p2_bw6761.NewPermutation), newMD: p2_bw6761.NewMerkleDamgardHasher, id: ghash.POSEIDON2_BW6_761, params: curve(50)},
-		{field: "grumpkin/fr", tag: "GRUMPKIN", d: 5, newPerm: reflect.ValueOf(p2_grumpkin.NewPermutation), newMD: p2_grumpkin.NewMerkleDamgardHasher, id: ghash.POSEIDON2_GRUMPKIN, params: curve(50)},
-		{field: "koalabear", tag: "koalabear", d: 3, newPerm: reflect.ValueOf(p2_koalabear.NewPermutation), newMD: p2_koalabear.NewMerkleDamgardHasher, id: ghash.POSEIDON2_KOALABEAR,
+		{field: "bn254/fr", tag: "BN254", d: 5, newPerm: reflect.ValueOf(p2_bn254.NewPermutation), newSeed: reflect.ValueOf(p2_bn254.NewPermutationWithSeed), newMD: p2_bn254.NewMerkleDamgardHasher, id: ghash.POSEIDON2_BN254, params: curve(50)},
+		{field: "bls12-377/fr", tag: "BLS12_377", d: 17, newPerm: reflect.ValueOf(p2_bls12377.NewPermutation), newSeed: reflect.ValueOf(p2_bls12377.NewPermutationWithSeed), newMD: p2_bls12377.NewMerkleDamgardHasher, id: ghash.POSEIDON2_BLS12_377, params: curve(26)},
+		{field: "bls12-381/fr", tag: "BLS12_381", d: 5, newPerm: reflect.ValueOf(p2_bls12381.NewPermutation), newSeed: reflect.ValueOf(p2_bls12381.NewPermutationWithSeed), newMD: p2_bls12381.NewMerkleDamgardHasher, id: ghash.POSEIDON2_BLS12_381, params: curve(50)},
+		{field: "bls24-315/fr", tag: "BLS24_315", d: 5, newPerm: reflect.ValueOf(p2_bls24315.NewPermutation), newSeed: reflect.ValueOf(p2_bls24315.NewPermutationWithSeed), newMD: p2_bls24315.NewMerkleDamgardHasher, id: ghash.POSEIDON2_BLS24_315, params: curve(50)},
+		{field: "bls24-317/fr", tag: "BLS24_317", d: 7, newPerm: reflect.ValueOf(p2_bls24317.NewPermutation), newSeed: reflect.ValueOf(p2_bls24317.NewPermutationWithSeed), newMD: p2_bls24317.NewMerkleDamgardHasher, id: ghash.POSEIDON2_BLS24_317, params: curve(40)},
+		{field: "bw6-633/fr", tag: "BW6_633", d: 5, newPerm: reflect.ValueOf(p2_bw6633.NewPermutation), newSeed: reflect.ValueOf(p2_bw6633.NewPermutationWithSeed), newMD: p2_bw6633.NewMerkleDamgardHasher, id: ghash.POSEIDON2_BW6_633, params: curve(50)},
+		{field: "bw6-761/fr", tag: "BW6_761", d: 5, newPerm: reflect.ValueOf(p2_bw6761.NewPermutation), newSeed: reflect.ValueOf(p2_bw6761.NewPermutationWithSeed), newMD: p2_bw6761.NewMerkleDamgardHasher, id: ghash.POSEIDON2_BW6_761, params: curve(50)},
+		{field: "grumpkin/fr", tag: "GRUMPKIN", d: 5, newPerm: reflect.ValueOf(p2_grumpkin.NewPermutation), newSeed: reflect.ValueOf(p2_grumpkin.NewPermutationWithSeed), newMD: p2_grumpkin.NewMerkleDamgardHasher, id: ghash.POSEIDON2_GRUMPKIN, params: curve(50)},
+		{field: "koalabear", tag: "koalabear", d: 3, newPerm: reflect.ValueOf(p2_koalabear.NewPermutation), newSeed: reflect.ValueOf(p2_koalabear.NewPermutationWithSeed), newMD: p2_koalabear.NewMerkleDamgardHasher, id: ghash.POSEIDON2_KOALABEAR,
 			params: [][3]int{{16, 6, 21}, {24, 6, 21}, {16, 4, 5}, {24, 2, 3},
 				// neighbours of the two instances that have an AVX-512 kernel: one of (width, full, partial) differs
 				{16, 6, 22}, {16, 6, 20}, {24, 6, 22}, {24, 6, 20}, {16, 4, 21}, {24, 8, 21}}},
-		{field: "babybear", tag: "babybear", d: 7, newPerm: reflect.ValueOf(p2_babybear.NewPermutation), newMD: p2_babybear.NewMerkleDamgardHasher, id: ghash.POSEIDON2_BABYBEAR,
+		{field: "babybear", tag: "babybear", d: 7, newPerm: reflect.ValueOf(p2_babybear.NewPermutation), newSeed: reflect.ValueOf(p2_babybear.NewPermutationWithSeed), newMD: p2_babybear.NewMerkleDamgardHasher, id: ghash.POSEIDON2_BABYBEAR,
 			params: [][3]int{{16, 8, 13}, {24, 8, 21}, {16, 4, 5}, {24, 2, 3},
 				{16, 8, 14}, {16, 8, 12}, {24, 8, 22}, {24, 8, 20}, {16, 6, 13}, {24, 6, 21}}},
-		{field: "goldilocks", tag: "goldilocks", d: 7, newPerm: reflect.ValueOf(p2_goldilocks.NewPermutation), newMD: p2_goldilocks.NewMerkleDamgardHasher, id: ghash.POSEIDON2_GOLDILOCKS,
+		{field: "goldilocks", tag: "goldilocks", d: 7, newPerm: reflect.ValueOf(p2_goldilocks.NewPermutation), newSeed: reflect.ValueOf(p2_goldilocks.NewPermutationWithSeed), newMD: p2_goldilocks.NewMerkleDamgardHasher, id: ghash.POSEIDON2_GOLDILOCKS,
 			params: [][3]int{{8, 6, 17}, {12, 6, 17}, {8, 4, 3}, {12, 2, 5}}},
 	}
 }
@@ -686,6 +688,26 @@ func c14RunMimc(out, tier, config string, seed uint64, only map[string]bool) (ev
 				t.Emit(e)
 			}
 		}
+		if in.consts != nil { // after the Sum events: GetConstants triggers the lazy initialisation
+			e := Ev{"op": "MimcConstants"}
+			if msg, pk := c14try(func() {
+				cs := in.consts()
+				l1 := make([][]int, len(cs))
+				for i := range cs {
+					l1[i] = digits(&cs[i])
+					cs[i].SetInt64(int64(i)) // the reply is the caller's
+				}
+				cs2 := in.consts()
+				l2 := make([][]int, len(cs2))
+				for i := range cs2 {
+					l2[i] = digits(&cs2[i])
+				}
+				e["cs"], e["cs2"] = l1, l2
+			}); pk {
+				e["panic"] = msg
+			}
+			t.Emit(e)
+		}
 		d.run(tier)
 		events += t.Close()
 		files++
@@ -712,6 +734,15 @@ func c14RunP2(out, tier, config string, seed uint64, only map[string]bool, small
 			seedStr := fmt.Sprintf("Poseidon2-%s[t=%d,rF=%d,rP=%d,d=%d]", pk.tag, p[0], p[1], p[2], pk.d)
 			hp = append(hp, Ev{"t": p[0], "rf": p[1], "rp": p[2], "seed": seedStr, "rk": c14KeccakChain(seedStr, p[1]*p[0]+p[2])})
 		}
+		// one more instance: the default shape with a caller-chosen seed (NewPermutationWithSeed); the round keys are the
+		// same documented chain started from that seed
+		params := append([][3]int{}, pk.params...)
+		customSeed := "verif/" + pk.field + "/caller-chosen seed"
+		if pk.newSeed.IsValid() {
+			p := pk.params[0]
+			params = append(params, p)
+			hp = append(hp, Ev{"t": p[0], "rf": p[1], "rp": p[2], "seed": customSeed, "rk": c14KeccakChain(customSeed, p[1]*p[0]+p[2])})
+		}
 		name := pk.id.String()
 		t := newTrace(out, c14TraceName("p2", pk.field, "", config), Ev{"property": "C14", "family": "p2", "field": pk.field, "name": name,
 			"le": false, "eb": f.NBytes, "config": config, "seed": int(seed % (1 << 30)), "p2": hp, "mdp": 1})
@@ -732,9 +763,14 @@ func c14RunP2(out, tier, config string, seed uint64, only map[string]bool, small
 			nPerm, nComp = 80, 60
 		}
 		eb := f.NBytes
-		for pi, p := range pk.params {
+		for pi, p := range params {
 			width := p[0]
-			res, msg, pnk := call(pk.newPerm, reflect.ValueOf(p[0]), reflect.ValueOf(p[1]), reflect.ValueOf(p[2]))
+			res, msg, pnk := []reflect.Value(nil), "", false
+			if pi >= len(pk.params) {
+				res, msg, pnk = call(pk.newSeed, reflect.ValueOf(p[0]), reflect.ValueOf(p[1]), reflect.ValueOf(p[2]), reflect.ValueOf(customSeed))
+			} else {
+				res, msg, pnk = call(pk.newPerm, reflect.ValueOf(p[0]), reflect.ValueOf(p[1]), reflect.ValueOf(p[2]))
+			}
 			if pnk {
 				t.Emit(Ev{"op": "Perm", "pi": pi + 1, "in": []int{}, "panic": "NewPermutation: " + msg})
 				continue
